@@ -21,11 +21,14 @@ theorem isAcceptable_eq (as : List AcceptInst) : isAcceptable as = acceptable as
   induction as with
   | nil => rfl
   | cons a rest ih =>
-    unfold isAcceptable acceptable
-    simp only [List.any_cons, acceptableInstance, hasUnsupportedParams, ← not_any_ne_profile]
-    unfold acceptable at ih
-    by_cases h1 : a.media = jsonApiMediaType <;> by_cases h2 : a.err = true <;> simp [h1, h2, ih]
-    cases a.params.any (fun k => k != "profile") <;> simp
+    unfold isAcceptable
+    rw [ih]
+    unfold acceptable
+    simp only [List.any_cons, acceptableInstance, hasUnsupportedParams, ← not_any_ne_profile, bne]
+    generalize a.params.any (fun k => !(k == "profile")) = p
+    generalize (a.media == jsonApiMediaType) = m
+    generalize rest.any acceptableInstance = q
+    cases m <;> cases a.err <;> cases p <;> simp
 
 /-! ## B. Member names and the query-parameter grammar -/
 
